@@ -45,11 +45,15 @@ namespace glm
 			detail::float_t<T> const a(x[i]);
 			detail::float_t<T> const b(y[i]);
 
-			// Different signs means they do not match.
 			if(a.negative() != b.negative())
 			{
-				// Check for equality to make sure +0==-0
-				Result[i] = a.mantissa() == b.mantissa() && a.exponent() == b.exponent();
+				// Values on both sides of zero (+0 == -0): the bit patterns are sign-magnitude, so the
+				// difference in ULPs is the sum of the distances to zero.
+				typedef typename detail::float_t<T>::int_type int_type;
+				int_type const Max = std::numeric_limits<int_type>::max();
+				int_type const DistA = a.i & Max;
+				int_type const DistB = b.i & Max;
+				Result[i] = DistA <= MaxULPs[i] && DistB <= MaxULPs[i] - DistA;
 			}
 			else
 			{
